@@ -1,12 +1,12 @@
 SPECIFICATION TableSpec
 CONSTANTS
  BNErrs = {"bnval", "bnptr"}
- Variant = "count_dups"
+ Variant = "coded"
  MCTypes = {"attester"}
  MCMain = "attester"
- MCIncl = {"proposer"}
+ MCIncl = {"proposer", "attester", "aggregator"}
  MCPKs = {"a", "b"}
- MCErrs = {"nil", "other"}
+ MCErrs = {"nil", "bnptr", "bnval", "cancel", "deadline", "other"}
  MCRoots = {"x", "y"}
  MCN = 2
  MCSteps = {1}
